@@ -20,6 +20,8 @@ CLAIMED.update({
  "C15": ("return-guard analysis of the sender retry loops (only shutdown or success) + select-arm dominance of batch replacement + fresh-slice rule + writer/reader field-mapping agreement + embedded-schema and constraint-branch checks", _T, "DESIGN.md §3 C15"),
  "C07": ("string-literal table extraction from goquery Find/Attr calls with def-use flow into the returned slice + guard allow-list per extraction site + exact-membership form of the disable test + loop-coverage of asset→child conversion", _T, "DESIGN.md §3 C07"),
  "C10": ("reachability-scoped scan (scope S) of every index/slice/assertion/panic/loop: bounds discharge by dominating guards, loop bounds, Split and regexp capture-group facts; defer/recover containment of panic-prone decoders; loop-variable progress on every back edge", _T, "DESIGN.md §3 C10"),
+ "C11": ("who-may-write on the tree's structural fields + lockset dataflow with caller-holds + must-pass effects on every successful AddChild + constant folding of HasWork + guard allow-list on markCompleted + stage consistency gates", _T, "DESIGN.md §3 C11"),
+ "C19": ("type-switch arm and loop-coverage checks in the JSON/XML/M3U8 extractors + sibling agreement on the asset/outlink split + predicate-order dominance in the dispatch switches + control-dependence and who-may-write rules on the S3 listing fields", _T, "DESIGN.md §3 C19"),
 })
 _P = "check not built yet in this round; planned rules in DESIGN.md §3 — not claimed until the rule runs"
 NOT_APPLICABLE = {f"C{i:02d}": _P for i in range(1, 20)}
